@@ -766,7 +766,8 @@ class TT():
             result = TT(cores_new)
 
         elif isinstance(other, int) or isinstance(other, float) or isinstance(other, complex) or isinstance(other, tn.Tensor):
-            if other != 0:
+            # (the rank one zero tensor is a shortcut for constants only: it would cut the autograd graph)
+            if other != 0 or (tn.is_tensor(other) and other.requires_grad) or any(c.requires_grad for c in self.cores):
                 cores_new = [c+0 for c in self.cores]
                 cores_new[0] *= other
                 result = TT(cores_new)
